@@ -225,6 +225,13 @@ def run(tier, replay):
         paths = S.all_paths(k0) if len(chain) > 1 else [p_ for (_e, p_) in S.witness_paths(k0)]
         for p_ in paths:
             pj.append(sch.bjob("%s.%d" % (base, len(pj)), pubmap.get(base, base), 1 + len(pj), [S.plan(k0, p_)]))
+        # the short spelling of a chained entry (README Appendix 1: "Ca48 (for Ca48+Sc48)") is the reference's own name for it:
+        # through the legacy interface it yields the same chain
+        if pubmap.get(base, base) != base:
+            for p_ in [p__ for (_e, p__) in S.witness_paths(k0)][:6]:
+                jid = "%s.s%d" % (base, len(pj))
+                pj.append(sch.bjob(jid, base, 1 + len(pj), [S.plan(k0, p_)]))
+                chain_jobs[jid] = (base, "short-spelling")
         # a chained name: every path of each daughter scheme as well, under parent paths that do (and do not) chain it - the
         # daughter's particles, ALL of them, carry the parent's decay time (co-simulation with the reference decides)
         if len(chain) > 1:
